@@ -27,7 +27,7 @@ func init() {
 	fw.Register(&fw.Property{
 		ID:    "C15",
 		Level: "fault_enumeration",
-		Rule: "ENUMERATED limits per persisted log: log shape {single chain of 5-40, two heads (local + replicated branch of unequal length), three heads, merged fork under one head} x limit n in {-5, -1, 0, 1, 2, shortest branch -1/0/+1, total-1, total, total+1, total+50} x {Load(n) per call on a fresh store, the same followed by local writes and a complete reload, Load(n) on a fresh store that already received the entries through replication, NewStoreOptions.MaxHistory = n with Load(0) on a store built with the public constructor over the same cache directory} x store type; the log is written, the instance closed and a fresh instance loads it; in per-call mode the same handle is then loaded twice more with the same limit, each time after 1-3 newer entries were persisted through a sibling handle of the same instance; in the then-write mode (limits 1, 2, shortest branch, total-1) the application writes 1-2 entries through the partially loaded handle, the instance is restarted once more and Load(-1) must list every entry persisted before plus the new ones. One limit per case (a crash is attributed to the limit). " +
+		Rule: "ENUMERATED limits per persisted log: log shape {single chain of 5-40, two heads (local + replicated branch of unequal length), three heads, merged fork under one head} x limit n in {-5, -1, 0, 1, 2, shortest branch -1/0/+1, total-1, total, total+1, total+50} x {Load(n) per call on a fresh store, the same followed by Load(-1) on the same handle, the same followed by local writes and a complete reload, Load(n) on a fresh store that already received the entries through replication, NewStoreOptions.MaxHistory = n with Load(0) on a store built with the public constructor over the same cache directory} x store type; the log is written, the instance closed and a fresh instance loads it; in per-call mode the same handle is then loaded twice more with the same limit, each time after 1-3 newer entries were persisted through a sibling handle of the same instance; in the then-write mode (limits 1, 2, shortest branch, total-1) the application writes 1-2 entries through the partially loaded handle, the instance is restarted once more and Load(-1) must list every entry persisted before plus the new ones. One limit per case (a crash is attributed to the limit). " +
 			"distinct = (shape, lengths, limit relative to the log, mode, store type); non-trivial = total >= 2 and the load returned",
 		Assumptions: []string{"logs are sampled, limits enumerated", "MaxHistory mode uses a wildcard write list so that the constructor-built store's simple controller is equivalent"},
 		Cases:       c15Cases,
@@ -55,8 +55,8 @@ func c15Cases(tier string, seed int64) []fw.Case {
 				a = 5 + rng.Intn(36)
 			}
 			for _, lim := range []string{"-5", "-1", "0", "1", "2", "short-1", "short", "short+1", "total-1", "total", "total+1", "total+50"} {
-				for mi, mode := range []string{"per-call", "max-history", "per-call-after-replication", "per-call-then-write"} {
-					if mode == "per-call-then-write" && lim != "1" && lim != "2" && lim != "short" && lim != "total-1" {
+				for mi, mode := range []string{"per-call", "max-history", "per-call-after-replication", "per-call-then-write", "per-call-then-full"} {
+					if (mode == "per-call-then-write" || mode == "per-call-then-full") && lim != "1" && lim != "2" && lim != "short" && lim != "total-1" {
 						continue
 					}
 					if mode == "per-call-after-replication" && (shape == "chain" || (lim != "1" && lim != "short" && lim != "total-1" && lim != "total+1")) {
@@ -108,7 +108,11 @@ func c15Run(c fw.Case) fw.Verdict {
 	k := 0
 	wr := func(s iface.Store, n int) error {
 		for i := 0; i < n; i++ {
-			if _, err := ApplyOp(bg, s, honestOp(typ, k)); err != nil {
+			op := honestOp(typ, k)
+			if mode == "per-call-then-full" {
+				op = uniqueKeyOp(typ, k)
+			}
+			if _, err := ApplyOp(bg, s, op); err != nil {
 				return err
 			}
 			k++
@@ -158,7 +162,7 @@ func c15Run(c fw.Case) fw.Verdict {
 	ctx, cancel := context.WithTimeout(bg, 60*time.Second)
 	defer cancel()
 	var loadErr error
-	if mode == "per-call" || mode == "per-call-after-replication" || mode == "per-call-then-write" {
+	if mode == "per-call" || mode == "per-call-after-replication" || mode == "per-call-then-write" || mode == "per-call-then-full" {
 		if err := P.Start(); err != nil {
 			return fw.Verdict{Status: fw.Inconclusive, What: "restart: " + err.Error()}
 		}
@@ -285,6 +289,19 @@ func c15Run(c fw.Case) fw.Verdict {
 			}
 		}
 		v.Count("reloads_same_handle", int64(reloads))
+	}
+	if mode == "per-call-then-full" {
+		// the same handle is then asked for everything: a non-positive limit loads everything, and what a
+		// Load makes visible is there when it returns
+		if err := s2.Load(ctx, -1); err != nil {
+			return fw.Verdict{Status: fw.Violated, Key: "load-error-full-after-limited/n" + cls, NonTrivial: true, Sig: v.Sig, What: fmt.Sprintf("Load(-1) on a handle loaded with limit %d returned %v", n, err)}
+		}
+		got := TakeSnap(typ, s2, P.Idx)
+		v.Count("complete_loads_on_a_partially_loaded_handle", 1)
+		if len(got.Order) != total || got.View != full.View {
+			return fw.Verdict{Status: fw.Violated, Key: fmt.Sprintf("complete-load-incomplete-on-partially-loaded-handle/n%s/%s", cls, shape), NonTrivial: true, Sig: v.Sig,
+				What: fmt.Sprintf("%s log of %d persisted entries: Load(%d) on a fresh handle, then Load(-1) on the same handle returned nil with %d entries listed (view complete: %v)", shape, total, n, len(got.Order), got.View == full.View)}
+		}
 	}
 	if mode == "per-call-then-write" {
 		// the application writes through the partially loaded handle; after another restart a complete load
